@@ -159,6 +159,7 @@ def integration_site(rep, res, ev, entry, dom):
 
 def integral_obligations(rep, res, dom, keep, axis):
     entry = "integral"
+    R.rule_dtype_casts(rep, res, entry)
     v = res.value.flat()
     where = res.fn.loc()
     out = {(-1, False): S("M"), (0, False): S("M"), (-1, True): S("M", "1"), (0, True): S("1", "M")}[(axis, keep)]
